@@ -111,6 +111,9 @@ func (s *State) parseIPTables(lines []string) tables {
 		case '*':
 			// *filter
 			name := line[1:]
+			if tb[name] != nil {
+				errlog.Abort("Duplicate definition of table %q", name)
+			}
 			cMap = make(chains)
 			tb[name] = cMap
 			appendRule = false
@@ -123,6 +126,9 @@ func (s *State) parseIPTables(lines []string) tables {
 			words := strings.Fields(line[1:])
 			if len(words) >= 2 {
 				name, policy := words[0], words[1]
+				if cMap[name] != nil {
+					errlog.Abort("Duplicate definition of chain %q", name)
+				}
 				cMap[name] = &chain{policy: policy}
 			}
 		case '-':
